@@ -303,6 +303,10 @@ func (o *Op) coqBase() string {
 		return fmt.Sprintf("(LDelete %d %s)", o.R, coqZs(o.Idxs))
 	case "LPop", "LClear", "LReverse", "LSort", "LCount", "LEmpty", "LSlice", "OClear", "OCount", "OEmpty", "ODict", "Clone":
 		return fmt.Sprintf("(%s %d)", o.Name, o.R)
+	case "ParseBack":
+		// ParseList(l.String()) / ParseObject(o.String()): by the round-trip theorem (C01) the result reads as the same tree, and a
+		// parser allocates everything it returns - in the model that is exactly what Clone builds
+		return fmt.Sprintf("(Clone %d)", o.R)
 	case "LSubList":
 		return fmt.Sprintf("(LSubList %d %s %s)", o.R, coqZ(o.S), coqZ(o.E))
 	case "LConcat", "OMerge", "Equals":
@@ -429,6 +433,21 @@ func (m *Machine) operands(os []Operand) []any {
 	}
 	return r
 }
+
+// operands that are about to be stored: literals go through toStored (narrower numeric Go types every other time)
+func (m *Machine) stored(o Operand) any {
+	if o.IsReg {
+		return m.vars[o.Reg]
+	}
+	return o.V.toStored()
+}
+func (m *Machine) storeds(os []Operand) []any {
+	r := make([]any, len(os))
+	for i, o := range os {
+		r[i] = m.stored(o)
+	}
+	return r
+}
 func (m *Machine) list(r int) at.List     { return m.vars[r].(at.List) }
 func (m *Machine) object(r int) at.Object { return m.vars[r].(at.Object) }
 
@@ -494,27 +513,27 @@ func (m *Machine) execNow(o *Op) (outcome string) {
 		switch o.Name {
 		case "NewList":
 			if o.Derived {
-				result, hasResult = newMyList(m.operands(o.Vals)...), true
+				result, hasResult = newMyList(m.storeds(o.Vals)...), true
 			} else {
-				result, hasResult = at.NewList(m.operands(o.Vals)...), true
+				result, hasResult = at.NewList(m.storeds(o.Vals)...), true
 			}
 		case "NewListOf":
-			result, hasResult = at.NewListOf(m.operand(o.Vals[0]), int(o.I)), true
+			result, hasResult = at.NewListOf(m.stored(o.Vals[0]), int(o.I)), true
 		case "NewObject":
 			if o.Derived {
-				result, hasResult = newMyObj(m.operands(o.Vals)...), true
+				result, hasResult = newMyObj(m.storeds(o.Vals)...), true
 			} else {
-				result, hasResult = at.NewObject(m.operands(o.Vals)...), true
+				result, hasResult = at.NewObject(m.storeds(o.Vals)...), true
 			}
 		case "LAdd":
 			l := m.list(o.R)
-			fluentL(l, l.Add(m.operands(o.Vals)...))
+			fluentL(l, l.Add(m.storeds(o.Vals)...))
 		case "LInsert":
 			l := m.list(o.R)
-			fluentL(l, l.Insert(int(o.I), m.operand(o.Vals[0])))
+			fluentL(l, l.Insert(int(o.I), m.stored(o.Vals[0])))
 		case "LReplace":
 			l := m.list(o.R)
-			fluentL(l, l.Replace(int(o.I), m.operand(o.Vals[0])))
+			fluentL(l, l.Replace(int(o.I), m.stored(o.Vals[0])))
 		case "LDelete":
 			l := m.list(o.R)
 			idx := make([]int, len(o.Idxs))
@@ -584,7 +603,7 @@ func (m *Machine) execNow(o *Op) (outcome string) {
 			out = "(OZ " + coqZ(int64(m.list(o.R).IndexOf(m.operand(o.Vals[0])))) + ")"
 		case "OSet":
 			ob := m.object(o.R)
-			fluentO(ob, ob.Set(m.operands(o.Vals)...))
+			fluentO(ob, ob.Set(m.storeds(o.Vals)...))
 		case "OUnset":
 			ob := m.object(o.R)
 			fluentO(ob, ob.Unset(o.Keys...))
@@ -684,6 +703,40 @@ func (m *Machine) execNow(o *Op) (outcome string) {
 				result = c.Clone()
 			}
 			hasResult = true
+		case "ParseBack":
+			switch c := m.vars[o.R].(type) {
+			case at.List:
+				txt := c.String()
+				pl, err := at.ParseList(txt)
+				if err != nil || pl == nil {
+					m.fail("ParseList(l.String()) failed on %q: %v", txt, err)
+					result = c.Clone()
+					break
+				}
+				if !pl.Equals(c) || !c.Equals(pl) {
+					m.fail("ParseList(l.String()) does not equal the list (text %q)", txt)
+				}
+				if p2, err2 := at.ParseList(pl.String()); err2 != nil || !p2.Equals(pl) {
+					m.fail("serialising the re-parsed list and parsing again does not yield an equal list (text %q)", txt)
+				}
+				result = pl
+			case at.Object:
+				txt := c.String()
+				po, err := at.ParseObject(txt)
+				if err != nil || po == nil {
+					m.fail("ParseObject(o.String()) failed on %q: %v", txt, err)
+					result = c.Clone()
+					break
+				}
+				if !po.Equals(c) || !c.Equals(po) {
+					m.fail("ParseObject(o.String()) does not equal the object (text %q)", txt)
+				}
+				if p2, err2 := at.ParseObject(po.String()); err2 != nil || !p2.Equals(po) {
+					m.fail("serialising the re-parsed object and parsing again does not yield an equal object (text %q)", txt)
+				}
+				result = po
+			}
+			hasResult = true
 		case "Equals":
 			switch c := m.vars[o.R].(type) {
 			case at.List:
@@ -702,9 +755,9 @@ func (m *Machine) execNow(o *Op) (outcome string) {
 		case "SetTF":
 			switch c := m.vars[o.R].(type) {
 			case at.List:
-				fluentL(c, c.SetTF(o.TF, m.operand(o.Vals[0])))
+				fluentL(c, c.SetTF(o.TF, m.stored(o.Vals[0])))
 			case at.Object:
-				fluentO(c, c.SetTF(o.TF, m.operand(o.Vals[0])))
+				fluentO(c, c.SetTF(o.TF, m.stored(o.Vals[0])))
 			}
 		case "UnsetTF":
 			switch c := m.vars[o.R].(type) {
@@ -843,7 +896,7 @@ func (p *Prog) do(o *Op) string {
 	}
 	// serialising is an observation: in the profiles about deriving operations and serialisation every live container is serialised
 	// after every step (results discarded); nothing may change by it
-	if (p.prof == "C09x" || p.prof == "C02x" || p.prof == "C16x") && !p.broken && !m.hung {
+	if (p.prof == "C09x" || p.prof == "C02x" || p.prof == "C16x" || p.prof == "C01x") && !p.broken && !m.hung {
 		if try(func() {
 			for _, v := range m.vars {
 				switch c := v.(type) {
@@ -910,7 +963,7 @@ func pureOp(o *Op) bool {
 	switch o.Name {
 	case "LSubList", "LConcat", "LCount", "LEmpty", "LGet", "LGetTyped", "LTypeOf", "LSlice", "LContains", "LIndexOf",
 		"OMerge", "OPluck", "OGet", "OGetTyped", "OTypeOf", "OKeyExists", "OCount", "OEmpty", "OKeys", "OValues", "ODict", "OContains", "OKeyOf",
-		"Clone", "Equals", "GetTF", "TypeOfTF":
+		"Clone", "ParseBack", "Equals", "GetTF", "TypeOfTF":
 		return true
 	}
 	return false
@@ -1550,7 +1603,7 @@ func heapProgramBody(p *Prog, r *R, prof string) {
 			p.do(&Op{Name: "NewListOf", Vals: []Operand{p.scalar()}, I: int64(pickOf(r, stressSizes))})
 			long := len(p.m.vars) - 1
 			p.do(&Op{Name: "LAdd", R: long, Vals: []Operand{p.value(long), p.scalar()}})
-		} else if r.chance(0.05) {
+		} else if r.chance(0.08) {
 			// homogeneous int / string lists with extreme values, sorted in place (Sort belongs to this property on C17's domain)
 			pool := pickOf(r, [][]*V{{vint(math.MinInt64), vint(math.MaxInt64), vint(1), vint(-1), vint(0), vint(5), vint(math.MinInt64 + 1)}, {vstr(""), vstr("a"), vstr("B"), vstr("é"), vstr("ab")}})
 			var vs []Operand
@@ -1558,7 +1611,38 @@ func heapProgramBody(p *Prog, r *R, prof string) {
 				vs = append(vs, Operand{V: pickOf(r, pool)})
 			}
 			p.do(&Op{Name: "NewList", Vals: vs})
-			p.do(&Op{Name: "LSort", R: len(p.m.vars) - 1})
+			sl := len(p.m.vars) - 1
+			p.do(&Op{Name: "LSort", R: sl})
+			// ... and sorted again after steps that keep it sortable (an implementation that remembers "already sorted" must forget
+			// it in every operation that changes the order, not in most of them)
+			for k, nk := 0, 2+r.Intn(6); k < nk && !p.broken; k++ {
+				n := p.m.list(sl).Count()
+				switch r.Intn(8) {
+				case 0, 1:
+					p.do(&Op{Name: "LReverse", R: sl})
+				case 2:
+					if n > 0 {
+						p.do(&Op{Name: "LInsert", R: sl, I: int64(r.Intn(n)), Vals: []Operand{{V: pickOf(r, pool)}}})
+					}
+				case 3:
+					if n > 0 {
+						p.do(&Op{Name: "LReplace", R: sl, I: int64(r.Intn(n)), Vals: []Operand{{V: pickOf(r, pool)}}})
+					}
+				case 4:
+					if n > 2 {
+						p.do(&Op{Name: "LDelete", R: sl, Idxs: []int64{int64(r.Intn(n))}})
+					}
+				case 5:
+					p.do(&Op{Name: "LAdd", R: sl, Vals: []Operand{{V: pickOf(r, pool)}}})
+				default:
+					if n > 0 {
+						p.do(&Op{Name: "LSort", R: sl})
+					}
+				}
+			}
+			if p.m.list(sl).Count() > 0 {
+				p.do(&Op{Name: "LSort", R: sl})
+			}
 		} else if r.chance(0.03) {
 			// a large list shrunk step by step with multi-index deletes, pops and single deletes (an implementation that gives memory
 			// back does so at some ratio of length to capacity; the call that crosses it is the interesting one)
@@ -1608,13 +1692,34 @@ func heapProgramBody(p *Prog, r *R, prof string) {
 		}
 		p.do(&Op{Name: "NewObject", Vals: nil})
 		p.newContainer()
-		if r.chance(0.04) {
-			// a wide object (Go maps change their layout beyond 8 entries; an implementation may switch strategy by size)
+		if r.chance(0.07) {
+			// a wide object (Go maps change their layout beyond 8 entries; an implementation may switch strategy by size) holding live
+			// containers among its values, then - half of the time - shrunk to a few fields key by key (an implementation that gives
+			// memory back or rebuilds its table does so at some ratio; what survives must be the identical containers)
 			var vs []Operand
-			for k, nk := 0, pickOf(r, []int{9, 17, 33, 65}); k < nk; k++ {
-				vs = append(vs, Operand{V: vstr(fmt.Sprintf("w%d", k))}, p.scalar())
+			nk := pickOf(r, []int{9, 17, 22, 33, 65})
+			for k := 0; k < nk; k++ {
+				v := p.scalar()
+				if k%7 == 3 {
+					v = Operand{IsReg: true, Reg: r.Intn(len(p.m.vars))}
+				}
+				vs = append(vs, Operand{V: vstr(fmt.Sprintf("w%d", k))}, v)
 			}
 			p.do(&Op{Name: "NewObject", Vals: vs})
+			wide := len(p.m.vars) - 1
+			if r.chance(0.5) {
+				keep := 1 + r.Intn(3)
+				for _, k := range r.Perm(nk) {
+					if p.broken || p.m.object(wide).Count() <= keep {
+						break
+					}
+					if k%7 == 3 && r.chance(0.8) {
+						continue // the containers mostly stay
+					}
+					p.do(&Op{Name: "OUnset", R: wide, Keys: []string{fmt.Sprintf("w%d", k)}})
+				}
+				nops += len(p.ops)
+			}
 		}
 		for len(p.ops) < nops && !p.broken {
 			p.anyOp(0.2)
